@@ -277,7 +277,12 @@ def run_check(pid, tier, only=None):
                     ob_ok = False
                     harness_errors.append("%s%s: %s" % (ob.name, _pp(r["part"]), r.get("detail", "")[:300]))
         if ob.engine == "X":
+            requested = set()
+            for r in recs:
+                requested.update((r.get("reach") or {}).keys())
             for l in ob.labels:
+                if l not in requested:
+                    continue            # the twin of this label was not requested in any partition
                 if not reached[l]:
                     if reach_proved_unreachable[l] and not ob_cex:
                         harness_errors.append("%s: reach label %r unreachable in every partition (vacuous)" % (ob.name, l))
